@@ -12,12 +12,15 @@ Import ListNotations.
 Open Scope Z_scope.
 
 (* ---------------------------------------------------------------- values *)
-Inductive cval := VInt (z : Z) | VStr (z : Z) | VMissing | VEmpty | VUnchanged.
+(* VNone = None, VEStr = '', VEList = [] : falsy values that are NOT sentinels *)
+Inductive cval := VInt (z : Z) | VStr (z : Z) | VMissing | VEmpty | VUnchanged
+  | VNone | VEStr | VEList.
 
 Definition enc_val (v : cval) : Z :=
   match v with
   | VInt z => 8 * z | VStr z => 8 * z + 1
   | VMissing => 2 | VEmpty => 3 | VUnchanged => 4
+  | VNone => 5 | VEStr => 6 | VEList => 7
   end.
 Definition enc_opt (o : option cval) : Z :=
   match o with Some v => enc_val v | None => -1 end.
@@ -26,6 +29,8 @@ Definition sentinel (v : cval) : bool :=
   match v with VMissing | VEmpty | VUnchanged => true | _ => false end.
 (* check_type(v, int) *)
 Definition is_int (v : cval) : bool := match v with VInt _ => true | _ => false end.
+(* isinstance(v, str) *)
+Definition is_str (v : cval) : bool := match v with VStr _ | VEStr => true | _ => false end.
 
 (* user preparer pool (_prepare_p); 0 = no preparer *)
 Definition uprep (pid : Z) (v : cval) : res cval :=
@@ -46,8 +51,8 @@ Definition pav (pid : Z) (v : cval) : res cval :=
 
 (* a mode of the getter, chosen by the underlying state x: 1 raises
    AttributeError, 2 returns MISSING, 3 returns a str, 5 returns UNCHANGED,
-   6 raises KeyError, everything else returns the private field if set, else
-   `base` *)
+   6 raises KeyError, 7 returns None, everything else returns the private
+   field if set, else `base` (0 when x = 0: a falsy int) *)
 Definition getter_mode (x : Z) (priv : option cval) (base : Z) : res cval :=
   let m := x mod 8 in
   if m =? 1 then Err AttrErr
@@ -55,6 +60,7 @@ Definition getter_mode (x : Z) (priv : option cval) (base : Z) : res cval :=
   else if m =? 3 then Ok (VStr x)
   else if m =? 5 then Ok VUnchanged
   else if m =? 6 then Err KeyErr
+  else if m =? 7 then Ok VNone
   else match priv with Some v => Ok v | None => Ok (VInt base) end.
 
 (* ---------------------------------------------------------------- spec_property *)
@@ -63,7 +69,7 @@ Record ust := mku { ux : Z; upriv : option cval; ucalls : Z }.
 Definition g_fget (u : ust) : res cval * ust :=
   (getter_mode (ux u) (upriv u) (ux u), mku (ux u) (upriv u) (ucalls u + 1)).
 Definition g_fset (sid : Z) (u : ust) (v : cval) : res unit * ust :=
-  if (sid =? 1) && negb (is_int v || sentinel v) then (Err ValueErr, u)
+  if (sid =? 1) && is_str v then (Err ValueErr, u)
   else (Ok tt, mku (ux u) (Some v) (ucalls u)).
 Definition g_fdel (did : Z) (u : ust) : res unit * ust :=
   if (did =? 1) && (match upriv u with None => true | Some _ => false end) then (Err AttrErr, u)
@@ -139,7 +145,7 @@ Definition h_fget (shape : Z) (c : Z) (u : cust) : res cval * cust :=
   (getter_mode x (resolve (cps u) (mro shape c)) (10 * x + c),
    mkcu (cxs u) (cps u) (ccalls u + 1)).
 Definition h_fset (sid : Z) (c : Z) (u : cust) (v : cval) : res unit * cust :=
-  if (sid =? 1) && negb (is_int v || sentinel v) then (Err ValueErr, u)
+  if (sid =? 1) && is_str v then (Err ValueErr, u)
   else (Ok tt, mkcu (cxs u) ((c, v) :: drop c (cps u)) (ccalls u)).
 Definition h_fdel (did : Z) (c : Z) (u : cust) : res unit * cust :=
   match own c (cps u) with
